@@ -31,9 +31,9 @@ P = {
     "C06": ("proof", "Theorems on the emitted module (structure level): one public item per nonterminal with the declared name, in declaration order, struct for struct / enum for enum; the parse signature names the start type and the terminal enum (C06_items_and_signature); field level (C06_fields): the k-th item mirrors the k-th declaration — a struct's field list and each enum variant's (same variant names, same order) is unit-like when no field is used and otherwise lists exactly the used fields in declaration order, `_` fields omitted, named fields under their names, typed Box<N> for a nonterminal N and with the terminal's declared payload type for a terminal. "
             "The text (pub, punctuation, layout) is the rendering of that structure: checked by byte equality with the model's rendering on every generated grammar and by reading the emitted text back (strict reader of Rust item syntax) and comparing with the declaration→Rust mapping of the property.",
             "§7 C06", "module-structure theorems (items, signature, fields) + strict read-back of the emitted text"),
-    "C07": ("proof", "Proved, stage by stage, for every input: the tokenizer never panics on any text (it equals the total scanner specification: C08_tokenize_total); the front-end parser never panics on any token list (C09_parse_correct) and cst_to_ast is total on every CST it returns (C07_cst_to_ast_total); validation has no panicking path (C07_validate_no_panic); once the grammar is coded, validated_ast_to_machine never hits a FIRST-map unwrap or index_map[i] failure and machine_to_table never hits rules[i], get_shift_dest(..).unwrap(), the 'Impossible: goto conflict' or a table index out of range (C07_generator_no_panic, from the generator invariants); and validated_ast_to_machine terminates with a machine for every coded grammar — explicit bound genFuel: FIRST fixpoint ≤ nN·(nT+1) changing passes, closures bounded by the number of well-formed items, worklist bounded by a potential ≤ 2^C·(U+1) since no two states share a core — after which machine_to_table returns a table or a genuine conflict (C07_generator_total). "
-            "Partial: termination of the emitted driver on non-sentences, Encode/text-emission unwraps after validation (get_type, unique names) and the parse-error slice are covered by the correspondence only: every stage runs under catch_unwind with a watchdog (and generate() in child processes) on valid, mutated, malformed and size-bound inputs; the model's panics are explicit (Res.panic at every unwrap/slice/index site) and its outcome class is compared.",
-            "§7 C07", "per-stage no-panic theorems + catch_unwind/watchdog correspondence"),
+    "C07": ("proof", "Theorem, end to end, for every source text and every fuel: generate never stops at a panic site (C07_generate_no_panic over Generate.stages, the model of lib.rs::generate with an explicit panic outcome at every unwrap / expect / slice / index of the Rust code): tokenizer slices (tokenize = total scanner spec), front-end parser and parse-error slice (kernel-checked tables; token positions), cst_to_ast, validation, symbol coding after validation (C07_emission_total), FIRST-map unwraps, index_map[i], rules[i], get_shift_dest(..).unwrap(), 'Impossible: goto conflict', table index checks (C07_generator_no_panic, from the generator invariants), get_type(..).unwrap(), method lookup, and the unique-identifier search (pigeonhole). Termination: validated_ast_to_machine terminates with a machine for every coded grammar — explicit bound genFuel — after which machine_to_table returns a table or a genuine conflict (C07_generator_total); all other stages are structural recursions. "
+            "Partial: termination of the table-driven front-end parse loop on invalid token lists (and of emitted parsers on non-sentences) is not a theorem; stack depth and allocation failure are outside the model. Every stage runs under catch_unwind with a watchdog (and generate() in child processes) on valid, mutated, malformed and size-bound inputs, and the model's outcome class and every intermediate value are compared with the implementation's.",
+            "§7 C07", "end-to-end no-panic theorem + generator termination theorem + catch_unwind/watchdog correspondence"),
     "C08": ("proof", "Full for the tokenizer: for every source text, the character state machine of tokenize.rs (model with explicit byte indices and source slices) = the scanner specification Spec.scan, which states the documented rules with explicit maximal munch and a bracket stack: same tokens, payloads and byte positions, or the same Lex(index, char?) (C08_tokenize_eq_spec; ≈ 900 lines of proof). Spec is total and only reports Lex (C08_scan_total); `::` is always one token; every returned token sits in the source at its own start offset: slicing the source by its span gives its text (C08_positions). "
             "The implementation is compared with scan and with the model on every generated text and on single-character probes over all scalars < U+3100 (all scalars in thorough).",
             "§0, §7 C08", "tokenize = scanner-specification theorem + three-way differential"),
